@@ -605,6 +605,8 @@ func CanonicalIsomorphAllocated(n, m int, neighbours [][]int, op *CanonicalOrder
 			return nil, nil, nil
 		}
 	}
+	//The value is only extended when the bin at the end of the singleton prefix is split. This never happens to a bin which is a singleton from the start (a vertex class containing one vertex) so make sure that the value covers the initial singleton prefix.
+	op.expandValue(neighbours, currentBest, firstLeaf)
 	for {
 		if !worse && len(op.binDividers) == n {
 			count++
